@@ -196,4 +196,362 @@ theorem components_joinSlash (ps : List Name) (hne : ps ≠ [])
   simp only [Option.some.injEq, this, if_false]
   exact hbody
 
+/-! ## D. protocol invariant -/
+namespace Proto
+
+def verOf : Option Doc → Nat
+  | some e => e.version
+  | none => 0
+
+theorem curVer_eq (s : PState) : curVer s = verOf s.entry := by
+  unfold curVer verOf; cases s.entry <;> rfl
+
+/-- the tracked document advanced: the version did not decrease, and an unchanged version means an
+unchanged document -/
+def Adv (old : Option Doc) (new : Doc) : Prop :=
+  match old with
+  | none => 1 ≤ new.version
+  | some e => e.version ≤ new.version ∧ (e.version = new.version → new = e)
+
+theorem Adv.ver {old : Option Doc} {new : Doc} (h : Adv old new) :
+    verOf old ≤ new.version ∧ (verOf old = new.version → old = some new) := by
+  cases old with
+  | none => simp only [Adv] at h; simp [verOf]; omega
+  | some e =>
+    simp only [Adv] at h
+    refine ⟨h.1, fun he => ?_⟩
+    simp only [verOf] at he
+    rw [h.2 he]
+
+theorem syncDoc_content (e : Option Doc) (d : Content) : (syncDoc e d).content = d := by
+  unfold syncDoc
+  cases e with
+  | none => rfl
+  | some e =>
+    simp only
+    split
+    · rfl
+    · rename_i h; simpa using h
+
+theorem syncDoc_adv (e : Option Doc) (d : Content) (hv : verOf e < u64Max) :
+    Adv e (syncDoc e d) ∧ (syncDoc e d).version ≤ verOf e + 1 := by
+  unfold syncDoc
+  cases e with
+  | none => simp [Adv, verOf]
+  | some e =>
+    simp only [verOf] at hv
+    simp only [Adv, verOf]
+    split
+    · simp only [satSucc, hv, if_true]
+      refine ⟨⟨by omega, fun h => by omega⟩, by omega⟩
+    · exact ⟨⟨Nat.le_refl _, fun _ => rfl⟩, by omega⟩
+
+theorem lookupIssued_mem (l : List (Nat × Content)) (v : Nat) (c : Content)
+    (h : lookupIssued l v = some c) : (v, c) ∈ l := by
+  induction l with
+  | nil => simp [lookupIssued] at h
+  | cons a rest ih =>
+    obtain ⟨v', c'⟩ := a
+    simp only [lookupIssued] at h
+    split at h
+    · rename_i hv
+      simp only [Option.some.injEq] at h
+      subst hv; subst h
+      simp
+    · exact List.mem_cons_of_mem _ (ih h)
+
+/-- every success found on disk exactly the content of the previous success (or the initial one) -/
+def chainOk : Content → List Success → Prop
+  | _, [] => True
+  | d, ev :: rest => ev.diskBefore = some d ∧ chainOk ev.content rest
+
+theorem chainOk_append (d : Content) (l : List Success) (ev : Success) :
+    chainOk d (l ++ [ev]) ↔ chainOk d l ∧
+      ev.diskBefore = some (match l.getLast? with | some x => x.content | none => d) := by
+  induction l generalizing d with
+  | nil => simp [chainOk]
+  | cons a rest ih =>
+    simp only [List.cons_append, chainOk, ih, and_assoc]
+    cases rest with
+    | nil => simp
+    | cons b rest' =>
+      simp only [List.getLast?_cons_cons]
+      cases hgl : (b :: rest').getLast? with
+      | none => simp at hgl
+      | some x => simp
+
+/-- The invariant of the versioned protocol after `n` steps, starting from disk content `d0`. -/
+structure Inv (d0 : Content) (s : PState) (n : Nat) : Prop where
+  ver_le : verOf s.entry ≤ 2 * n
+  issued_ok : ∀ i v c, (v, c) ∈ (s.clients i).issued →
+    ∃ e, s.entry = some e ∧ v ≤ e.version ∧ (v = e.version → c = e.content)
+  pending_ok : ∀ i p, (s.clients i).pending = some p →
+    p.seenVersion ≤ verOf s.entry ∧ (verOf s.entry = p.seenVersion → s.disk = some p.disk) ∧
+    (∀ c, p.base = some c → p.expected ≤ p.seenVersion ∧ (p.expected, c) ∈ (s.clients i).issued)
+  succ_ok : ∀ ev ∈ s.successes, ev.version = ev.expected + 1 ∧ ev.version ≤ verOf s.entry ∧
+    (∀ c, ev.base = some c → ev.diskBefore = some c)
+  sorted : s.successes.Pairwise (fun a b => a.version < b.version)
+  disk_ok : s.disk = some (match s.successes.getLast? with
+    | some ev => ev.content
+    | none => d0)
+  chain : chainOk d0 s.successes
+
+theorem inv_init (d0 : Content) : Inv d0 (init d0) 0 := by
+  refine ⟨by simp [init, verOf], ?_, ?_, ?_, ?_, ?_, ?_⟩ <;> simp [init, chainOk]
+
+/-- the tracked document advances; clients only gain the pair just issued and lose pendings -/
+theorem Inv.step_entry {d0 : Content} {s : PState} {n : Nat} (h : Inv d0 s n) (new : Doc)
+    (hadv : Adv s.entry new) (hv : new.version ≤ 2 * (n + 1)) (cl : Nat → Client)
+    (hiss : ∀ i v c, (v, c) ∈ (cl i).issued →
+      (v, c) ∈ (s.clients i).issued ∨ (v = new.version ∧ c = new.content))
+    (hpend : ∀ i p, (cl i).pending = some p → (s.clients i).pending = some p ∧
+      ∀ v c, (v, c) ∈ (s.clients i).issued → (v, c) ∈ (cl i).issued) :
+    Inv d0 { s with entry := some new, clients := cl } (n + 1) := by
+  obtain ⟨hle, heq⟩ := hadv.ver
+  refine ⟨by simpa [verOf] using hv, ?_, ?_, ?_, h.sorted, h.disk_ok, h.chain⟩
+  · intro i v c hm
+    rcases hiss i v c hm with hm | ⟨rfl, rfl⟩
+    · obtain ⟨e, he, hve, hc⟩ := h.issued_ok i v c hm
+      refine ⟨new, rfl, ?_, ?_⟩
+      · have : verOf s.entry = e.version := by simp [he, verOf]
+        omega
+      · intro hvn
+        have hver : verOf s.entry = e.version := by simp [he, verOf]
+        have : s.entry = some new := heq (by omega)
+        rw [he] at this
+        cases this
+        exact hc hvn
+    · exact ⟨new, rfl, Nat.le_refl _, fun _ => rfl⟩
+  · intro i p hp
+    obtain ⟨hp', hsub⟩ := hpend i p hp
+    obtain ⟨h1, h2, h3⟩ := h.pending_ok i p hp'
+    refine ⟨by simp only [verOf]; omega, ?_, ?_⟩
+    · intro hcur
+      simp only [verOf] at hcur
+      have : s.entry = some new := heq (by omega)
+      apply h2
+      rw [this]; simp [verOf, hcur]
+    · intro c hc
+      obtain ⟨h4, h5⟩ := h3 c hc
+      exact ⟨h4, hsub _ _ h5⟩
+  · intro ev hev
+    obtain ⟨h1, h2, h3⟩ := h.succ_ok ev hev
+    exact ⟨h1, by simp only [verOf]; omega, h3⟩
+
+/-- a client starts an operation: only a pending read is added -/
+theorem Inv.step_begin {d0 : Content} {s : PState} {n : Nat} (h : Inv d0 s n) (i : Nat) (p : Pending)
+    (d : Content) (hd : s.disk = some d) (hpd : p.disk = d) (hseen : p.seenVersion = verOf s.entry)
+    (hbase : ∀ c, p.base = some c → (p.expected, c) ∈ (s.clients i).issued) :
+    Inv d0 { s with clients := upd s.clients i { (s.clients i) with pending := some p } } (n + 1) := by
+  refine ⟨by have := h.ver_le; simp only; omega, ?_, ?_, h.succ_ok, h.sorted, h.disk_ok, h.chain⟩
+  · intro j v c hm
+    simp only [upd] at hm
+    split at hm
+    · rename_i hj; subst hj; exact h.issued_ok j v c hm
+    · exact h.issued_ok j v c hm
+  · intro j q hq
+    simp only [upd] at hq ⊢
+    split at hq
+    · rename_i hj
+      subst hj
+      simp only [Option.some.injEq] at hq
+      subst hq
+      simp only [if_true]
+      refine ⟨by omega, fun _ => by rw [hd, hpd], ?_⟩
+      intro c hc
+      have hm := hbase c hc
+      obtain ⟨e, he, hve, _⟩ := h.issued_ok j _ c hm
+      refine ⟨?_, hm⟩
+      rw [hseen, he]; simpa [verOf] using hve
+    · rename_i hj
+      simp only [hj, if_false]
+      exact h.pending_ok j q hq
+
+theorem step_inv {d0 : Content} {s : PState} {n : Nat} (h : Inv d0 s n) (st : Step)
+    (hst : st.versioned = true) (hn : 2 * n + 2 < u64Max) : Inv d0 (next s st) (n + 1) := by
+  have hvlt : verOf s.entry < u64Max := by have := h.ver_le; omega
+  cases st with
+  | delete => simp [Step.versioned] at hst
+  | create _ => simp [Step.versioned] at hst
+  | symRename _ _ => simp [Step.versioned] at hst
+  | override t =>
+    obtain ⟨hadv, hle⟩ := syncDoc_adv s.entry t hvlt
+    have := h.ver_le
+    exact h.step_entry _ hadv (by omega) s.clients (fun i v c hm => Or.inl hm)
+      (fun i p hp => ⟨hp, fun _ _ hm => hm⟩)
+  | syncAll =>
+    simp only [next]
+    split
+    · rename_i d hd
+      obtain ⟨hadv, hle⟩ := syncDoc_adv s.entry d hvlt
+      have := h.ver_le
+      exact h.step_entry _ hadv (by omega) s.clients (fun i v c hm => Or.inl hm)
+        (fun i p hp => ⟨hp, fun _ _ hm => hm⟩)
+    · exact ⟨by have := h.ver_le; omega, h.issued_ok, h.pending_ok, h.succ_ok, h.sorted, h.disk_ok, h.chain⟩
+  | beginOpen i =>
+    simp only [next]
+    split
+    · rename_i d hd hp
+      exact h.step_begin i _ d hd rfl (by simp [curVer_eq]) (by simp)
+    · exact ⟨by have := h.ver_le; omega, h.issued_ok, h.pending_ok, h.succ_ok, h.sorted, h.disk_ok, h.chain⟩
+  | beginApply i expected new =>
+    simp only [next]
+    split
+    · rename_i d hd hp
+      exact h.step_begin i _ d hd rfl (by simp [curVer_eq])
+        (fun c hc => lookupIssued_mem _ _ _ hc)
+    · exact ⟨by have := h.ver_le; omega, h.issued_ok, h.pending_ok, h.succ_ok, h.sorted, h.disk_ok, h.chain⟩
+  | finish i =>
+    simp only [next]
+    split
+    · exact ⟨by have := h.ver_le; omega, h.issued_ok, h.pending_ok, h.succ_ok, h.sorted, h.disk_ok, h.chain⟩
+    · rename_i p hp
+      obtain ⟨hadv, hle⟩ := syncDoc_adv s.entry p.disk hvlt
+      have hver := h.ver_le
+      split
+      · -- locked section of open_source
+        refine h.step_entry _ hadv (by omega) _ ?_ ?_
+        · intro j v c hm
+          simp only [upd] at hm
+          split at hm
+          · rename_i hj; subst hj
+            simp only [List.mem_cons, Prod.mk.injEq] at hm
+            rcases hm with ⟨rfl, rfl⟩ | hm
+            · exact Or.inr ⟨rfl, (syncDoc_content _ _).symm⟩
+            · exact Or.inl hm
+          · exact Or.inl hm
+        · intro j q hq
+          simp only [upd] at hq
+          split at hq
+          · simp at hq
+          · rename_i hj
+            refine ⟨hq, fun v c hm => ?_⟩
+            simp only [upd, hj, if_false]; exact hm
+      · -- locked section of apply_source
+        by_cases hexp : (syncDoc s.entry p.disk).version = p.expected
+        · -- success
+          obtain ⟨hle', heq'⟩ := hadv.ver
+          have hsv : (syncDoc s.entry p.disk).version < u64Max := by omega
+          have hsat : satSucc (syncDoc s.entry p.disk).version = p.expected + 1 := by
+            simp only [satSucc, hsv, if_true]; omega
+          have happ : applyDoc s.entry p.disk p.expected p.new =
+              ({ content := p.new, version := p.expected + 1 }, some (p.expected + 1)) := by
+            rw [hexp] at hsat
+            simp [applyDoc, hexp, hsat]
+          rw [happ]
+          simp only
+          obtain ⟨hp1, hp2, hp3⟩ := h.pending_ok i p hp
+          refine ⟨?_, ?_, ?_, ?_, ?_, ?_, ?_⟩
+          · simp only [verOf]; omega
+          · intro j v c hm
+            simp only [upd] at hm
+            refine ⟨_, rfl, ?_⟩
+            have hold : (v, c) ∈ (s.clients j).issued → v ≤ p.expected := by
+              intro hm'
+              obtain ⟨e, he, hve, _⟩ := h.issued_ok j v c hm'
+              have : verOf s.entry = e.version := by simp [he, verOf]
+              omega
+            split at hm
+            · rename_i hj; subst hj
+              simp only [List.mem_cons, Prod.mk.injEq] at hm
+              rcases hm with ⟨rfl, rfl⟩ | hm
+              · exact ⟨Nat.le_refl _, fun _ => rfl⟩
+              · have := hold hm
+                exact ⟨by simp only; omega, fun hv => by simp only at hv; omega⟩
+            · have := hold hm
+              exact ⟨by simp only; omega, fun hv => by simp only at hv; omega⟩
+          · intro j q hq
+            simp only [upd] at hq
+            split at hq
+            · simp at hq
+            · rename_i hj
+              obtain ⟨h1, h2, h3⟩ := h.pending_ok j q hq
+              simp only [verOf]
+              refine ⟨by omega, fun hv => by omega, ?_⟩
+              intro c hc
+              obtain ⟨h4, h5⟩ := h3 c hc
+              refine ⟨h4, ?_⟩
+              simp only [upd, hj, if_false]; exact h5
+          · intro ev hev
+            simp only [List.mem_append, List.mem_singleton] at hev
+            rcases hev with hev | rfl
+            · obtain ⟨h1, h2, h3⟩ := h.succ_ok ev hev
+              exact ⟨h1, by simp only [verOf]; omega, h3⟩
+            · refine ⟨rfl, by simp [verOf], ?_⟩
+              intro c hc
+              -- the honest writer: its base is the tracked content, and the disk has not moved
+              obtain ⟨hb1, hb2⟩ := hp3 c hc
+              obtain ⟨e, he, hve, hce⟩ := h.issued_ok i _ c hb2
+              have hve' : verOf s.entry = e.version := by simp [he, verOf]
+              have hsame : s.entry = some (syncDoc s.entry p.disk) := heq' (by omega)
+              have hee : syncDoc s.entry p.disk = e := by
+                have h' := hsame
+                rw [he] at h'
+                rw [he]
+                exact (Option.some.inj h').symm
+              have hc' : c = e.content := hce (by rw [← hee]; omega)
+              have hdisk : s.disk = some p.disk := hp2 (by omega)
+              simp only
+              rw [hdisk, hc', ← hee, syncDoc_content]
+          · simp only
+            rw [List.pairwise_append]
+            refine ⟨h.sorted, by simp, ?_⟩
+            intro a ha b hb
+            simp only [List.mem_singleton] at hb
+            subst hb
+            obtain ⟨_, h2, _⟩ := h.succ_ok a ha
+            simp only; omega
+          · simp
+          · simp only
+            rw [chainOk_append]
+            exact ⟨h.chain, h.disk_ok⟩
+        · -- conflict: the synced entry stays
+          have happ : applyDoc s.entry p.disk p.expected p.new = (syncDoc s.entry p.disk, none) := by
+            simp [applyDoc, hexp]
+          rw [happ]
+          simp only
+          refine h.step_entry _ hadv (by omega) _ ?_ ?_
+          · intro j v c hm
+            simp only [upd] at hm
+            split at hm
+            · rename_i hj; subst hj; exact Or.inl hm
+            · exact Or.inl hm
+          · intro j q hq
+            simp only [upd] at hq
+            split at hq
+            · simp at hq
+            · rename_i hj
+              refine ⟨hq, fun v c hm => ?_⟩
+              simp only [upd, hj, if_false]; exact hm
+
+theorem run_inv {d0 : Content} (tr : List Step) : ∀ (s : PState) (n : Nat), Inv d0 s n →
+    (∀ st ∈ tr, st.versioned = true) → 2 * (n + tr.length) + 2 < u64Max →
+    Inv d0 (run s tr) (n + tr.length) := by
+  induction tr with
+  | nil => intro s n h _ _; simpa [run] using h
+  | cons st rest ih =>
+    intro s n h hv hn
+    simp only [List.length_cons] at hn ⊢
+    have h1 := step_inv h st (hv st (by simp)) (by omega)
+    have := ih (next s st) (n + 1) h1 (fun x hx => hv x (by simp [hx])) (by omega)
+    simpa [run, Nat.add_assoc, Nat.add_comm 1] using this
+
+/-- two honest writers race; the loser re-opens and writes again -/
+def raceTrace : List Step :=
+  [.beginOpen 0, .finish 0, .beginOpen 1, .finish 1,
+   .beginApply 0 1 "A".toList, .beginApply 1 1 "B".toList, .finish 0, .finish 1,
+   .beginOpen 1, .finish 1, .beginApply 1 4 "B2".toList, .finish 1]
+
+/-- witness of the open finding C19-version-reuse -/
+def reuseTrace : List Step :=
+  [.beginOpen 0, .finish 0, .beginOpen 1, .finish 1, .beginApply 1 1 "B1".toList, .finish 1,
+   .delete, .create "B2".toList, .beginApply 0 1 "A".toList, .finish 0]
+
+/-- witness of the open finding C19-rename-symbol-bypass -/
+def symRenameTrace : List Step :=
+  [.beginOpen 0, .finish 0, .beginOpen 1, .finish 1, .beginApply 1 1 "B1".toList, .finish 1,
+   .symRename (some "v0".toList) "renamed(v0)".toList]
+
+end Proto
+
 end TrustVerif.C19
